@@ -194,7 +194,7 @@ Solve(g, st, fuel, D) ==
     [] g[1] = "dfresh" -> Res(Lazy(<<"pauseD", st, g[2]>>), 0, FALSE)
     [] g[1] = "closure" -> Solve(FromArray(g[2], BuildAll(g[2], g[3])), st, fuel, D)
     [] g[1] = "call" ->
-         LET def == IF g[3] \in DOMAIN D THEN D[g[3]] ELSE LibDef(g[3])
+         LET def == DefOf(g[3], D)
              body == Unfold(def, g[4], st.next)
          IN Solve(FromArray(g[2], <<Build(g[2], body)>>), [st EXCEPT !.next = @ + Len(def.locals)], fuel, D)
     [] g[1] = "anyo" ->
